@@ -15,7 +15,7 @@ import (
 func init() {
 	register(&Prop{
 		ID:          "C12",
-		Explanation: "Decides the shape of the refresh protocol (not its schedules): the provider refresh function value is called only in refreshSession, which is called only from refreshSessionIfNeeded; that call site is reached only on paths where ObtainLock returned nil, then SessionStore.Load returned a non-nil session without error, the request's session object was overwritten from it, and a needsRefresh evaluated after the overwrite was true; on every path on which the lock was obtained the deferred function that releases it has been registered, and that function calls ReleaseLock on every path with a non-nil session; once the first needsRefresh is true the function returns nil only because the post-reload needsRefresh was false, or returns validateSession's verdict evaluated after the refresh attempt; validateSession returns nil only if the session is not expired and the provider validator accepted it; getValidatedSession returns a nil session with every error and the loader calls store.Clear for every error other than ErrNoCookie; Manager.Save mints a new ticket only when the request's ticket could not be decoded and otherwise saves under the request's ticket; the redis lock maps redislock's sentinels to the session-lock sentinels the middleware's retry loop tests. Added during the build: Manager.Clear expires the cookie on every path (R8, shared with C11.R2); every provider redeemRefreshToken stores access token, issue time, expiry and — when the response carries one — the refresh token on every success path (R9). Round 3: Age() is Clock.Now() (truncated by at most one second) minus *CreatedAt, unrounded, and needsRefresh is Age() > period (R10); the token-validation helper answers true only for status 200 (R11). Round 4: the cookie store's Save expires every presented session cookie it did not overwrite, so a refreshed session supersedes what the browser holds (R12, shared with C10.R4); every Provider.ValidateSession answers true only as, or after, a true verdict of validateToken or of the ValidateSession it embeds, or after an error-free ID-token verification (R13). needsRefresh may be folded into its caller: the staleness test is then recognised as the comparison Age() > refreshPeriod itself. Round 5: the stored-session loader's refresh and validation callbacks are the provider's own method values and the loader keeps them as given (R14). Round 6: a delegating RefreshSession never answers (false, nil) after its delegate answered true (R15).",
+		Explanation: "Decides the shape of the refresh protocol (not its schedules): the provider refresh function value is called only in refreshSession, which is called only from refreshSessionIfNeeded; that call site is reached only on paths where ObtainLock returned nil, then SessionStore.Load returned a non-nil session without error, the request's session object was overwritten from it, and a needsRefresh evaluated after the overwrite was true; on every path on which the lock was obtained the deferred function that releases it has been registered, and that function calls ReleaseLock on every path with a non-nil session; once the first needsRefresh is true the function returns nil only because the post-reload needsRefresh was false, or returns validateSession's verdict evaluated after the refresh attempt; validateSession returns nil only if the session is not expired and the provider validator accepted it; getValidatedSession returns a nil session with every error and the loader calls store.Clear for every error other than ErrNoCookie; Manager.Save mints a new ticket only when the request's ticket could not be decoded and otherwise saves under the request's ticket; the redis lock maps redislock's sentinels to the session-lock sentinels the middleware's retry loop tests. Added during the build: Manager.Clear expires the cookie on every path (R8, shared with C11.R2); every provider redeemRefreshToken stores access token, issue time, expiry and — when the response carries one — the refresh token on every success path (R9). Round 3: Age() is Clock.Now() (truncated by at most one second) minus *CreatedAt, unrounded, and needsRefresh is Age() > period (R10); the token-validation helper answers true only for status 200 (R11). Round 4: the cookie store's Save expires every presented session cookie it did not overwrite, so a refreshed session supersedes what the browser holds (R12, shared with C10.R4); every Provider.ValidateSession answers true only as, or after, a true verdict of validateToken or of the ValidateSession it embeds, or after an error-free ID-token verification (R13). needsRefresh may be folded into its caller: the staleness test is then recognised as the comparison Age() > refreshPeriod itself. Round 5: the stored-session loader's refresh and validation callbacks are the provider's own method values and the loader keeps them as given (R14). Round 6: a delegating RefreshSession never answers (false, nil) after its delegate answered true (R15). Round 7: request handling keeps no state of its own between requests — no store, map update, in-place builtin, atomic/sync.Map write or pointer-receiver library call (singleflight, caches) reached from ServeHTTP targets a package-level variable, an object built at start-up, or a constructor variable captured by the handler it returned, declared in the packages implementing this property (RS; a class-wide who-may-write rule with zero instances today: a correct memoisation would be reported until reviewed). Under R9: a refresh that adopts the new ID token adopts its identity claims with it (generic OIDC path).",
 		NotDecided:  "'exactly one refresh' under interleavings, lock expiry versus identity-provider latency, token rotation at the provider: schedules and histories are not explored.",
 		Run:         runC12,
 	})
@@ -534,12 +534,73 @@ func runC12R9(c *Ctx, rule string) {
 			}
 		}
 		fn := fn
+		// identity fields this function takes over from the refreshed ID token on SOME path ...
+		identity := map[string]bool{}
+		idFields := map[string]bool{"Email": true, "User": true, "Groups": true, "PreferredUsername": true}
+		type pathStores struct {
+			stored map[string]bool
+			exit   ssa.Instruction
+		}
+		var withToken []pathStores
+		defer func() {
+			// ... must be taken over on EVERY success path that adopts the new ID token: the session's identity is the
+			// identity of the token it holds. A claim the refreshed token lacks (the user left every group) is not
+			// "keep the old value" (round 7).
+			// scope: the generic OIDC path (the function builds the new session with createSession from the verified
+			// token). The legacy Azure provider merges claims best-effort from either token and keeps Graph groups by
+			// design; it is listed as an unclaimed site under C04.
+			usesCreateSession := false
+			for _, b := range fn.Blocks {
+				for _, in := range b.Instrs {
+					if call, ok := in.(*ssa.Call); ok {
+						if sc := call.Call.StaticCallee(); sc != nil && sc.Name() == "createSession" {
+							usesCreateSession = true
+						}
+					}
+				}
+			}
+			if len(identity) == 0 || !usesCreateSession {
+				return
+			}
+			var all []string
+			for f := range identity {
+				all = append(all, f)
+			}
+			sort.Strings(all)
+			key := "adopts-identity|" + fnKey(fn)
+			bad := false
+			for _, ps := range withToken {
+				var missing []string
+				for _, f := range all {
+					if !ps.stored[f] {
+						missing = append(missing, f)
+					}
+				}
+				if len(missing) > 0 && !bad {
+					bad = true
+					c.R.Bad(rule, key, c.pos(ps.exit), "a successful refresh can adopt the new ID token without taking over "+strings.Join(missing, ", ")+" from it: the session keeps the identity of the OLD token (groups the user has since lost keep authorising, and keep being sent upstream)", nil, nil)
+				}
+			}
+			if !bad {
+				c.R.OK(rule, key, c.P.Pos(fn.Pos()), "every success path that stores the new ID token also stores "+strings.Join(all, ", "))
+			}
+		}()
 		c.Walk(rule, fn, func(p *walk.Path) {
 			ret, ok := p.ReturnDV(0)
 			if !ok || !DefinitelyNil(p, ret, p.End()) {
 				return
 			}
 			stored := map[string]bool{}
+			defer func() {
+				for f := range stored {
+					if idFields[f] {
+						identity[f] = true
+					}
+				}
+				if stored["IDToken"] {
+					withToken = append(withToken, pathStores{stored, p.Exit})
+				}
+			}()
 			for _, s := range p.Steps {
 				switch v := s.In.(type) {
 				case *ssa.Store:
